@@ -138,6 +138,15 @@ NOTES = {
     "C15-c": ("rr_ip through the table canonicalises the address: an IPv4-mapped AAAA is copied out as 4 bytes", "MISSED at first; a third of the generated AAAA data are now addresses libraries treat specially and walks read the address of unchanged records - now caught"),
     "C16-c": ("error slot moved from a thread-local to a 4096-entry table indexed by a wrapping counter", "first run: only the regenerated thread_local obligation broke (no failing input); schedules with 4100 (thorough 8200) live threads added, the replay thread now uses one gate per step - now caught with an input"),
     "C18-c": ("EDNS option length + 4 computed in u16: an option declaring 65532 bytes never advances the cursor (release), overflow panic (debug)", "first run: only the regenerated cast inventory broke (no failing input); added option lengths 65527..65535 and a per-case watchdog in the harness (a case running over 20 s is reported as HANG instead of losing the shard) - now caught with an input"),
+    "C03-d": ("raw_name_to_str stops at a pointer whose target is at or beyond min(len, 8192): dotted names cut short in packets above 8 KiB", "MISSED at first; pointer targets 4096 / 8191 / 8192 / 8193 / 12000 / 16382 / 16383 added to the label-at family (every kind of name points there) - now caught"),
+    "C05-d": ("decompression copies the question name's wire bytes verbatim: a question written as a pointer into the header keeps its pointer", "caught at once (header-pointer questions are in the accepted-packet families)"),
+    "C06-d": ("dictionary comparison accepts characters that differ only by bit 0x20 even when they are not letters ('[' / '{', '@' / '`')", "caught at once (near-case family)"),
+    "C07-d": ("replace_raw starts comparing at the byte offset len(name) - len(source) without walking the labels", "MISSED at first; added names in which the byte before a look-alike tail equals the source's first length byte (all lengths 1..62, two depths, same- and different-length targets) - now caught. The theorem C07_keeps_other_names states the clause this change violates"),
+    "C08-d": ("delete() treats any record of type 41 as the OPT record: deleting a question with QTYPE 41 wipes the EDNS summary", "caught at once (special-QTYPE family added for C08-c)"),
+    "C09-d": ("same change as C08-d, seeded independently against C09", "first run: reported by the correspondence only, no failing input (the bytes are unchanged; only what the object reports changes); C09 now compares the object's EDNS report after every step with the OPT record of the abstract message - now caught with an input"),
+    "C10-d": ("insert_rr tests the 8192 limit against the length on entry (possibly compressed) instead of the pointer-free length", "caught at once (compressed packets whose pointer-free form straddles the limit, added for C10-a)"),
+    "C11-d": ("the 65535 limit of resize_rr also applied when a record shrinks or is removed", "caught at once (jumbo histories)"),
+    "C13-d": ("RR::new refuses data of exactly 65535 bytes (>= instead of >)", "MISSED at first; only a DS record can get there: digests of 65527 .. 65533 bytes (131 KB of text) added - now caught"),
     "C17-c": ("compress() output built in a thread-local scratch buffer that is not cleared above 64 KiB of capacity", "first run: only the regenerated inventory obligation broke; added small operations right after 33 .. 65 KB ones - now caught with an input"),
 }
 
